@@ -100,6 +100,18 @@ Section boundw.
   (* cost of a file-change notice *)
   Definition change_cost (ts : list tid) : nat := sum_list_with winvT ts.
 
+  Lemma wlW_mid t pre m rest : wlW t (pre ++ m :: rest) = wlW t (pre ++ rest) + wmsgW (ATarget t) m.
+  Proof. unfold wlW. rewrite !sum_list_with_app. cbn. lia. Qed.
+
+  Lemma root_consume_phiW w s pre o rest :
+    ph s = PRun -> rootq s = pre ++ o :: rest -> PhiW (root_consume w s o (pre ++ rest)) + 1 <= PhiW s.
+  Proof.
+    intros Hrun Hq. unfold root_consume.
+    assert (Hlen : length (rootq s) = S (length (pre ++ rest))) by (rewrite Hq, !app_length; cbn; lia).
+    destruct w; [unfold PhiW; cbn; rewrite ?Hrun; cbn; lia|].
+    destruct o as [[|d] [k r|k r|[] t act|k t]|t]; unfold PhiW; cbn; rewrite ?Hrun; cbn; rewrite ?size_dom; lia.
+  Qed.
+
   Lemma exec_phiW w s l s' :
     weighted s -> weighted s' -> (forall dst k r, ~ msg_in s dst (MUnrequested k r)) ->
     exec true w s l = Some s' ->
@@ -109,7 +121,7 @@ Section boundw.
     | _ => PhiW s' + 1 <= PhiW s
     end.
   Proof.
-    intros Hws Hws' Hnun H. destruct l as [t ok|t ok|t|t r| | | | |ts|]; cbn [exec] in H.
+    intros Hws Hws' Hnun H. destruct l as [t ok|t ok|t|t r| | | | |ts| |t i ok|i]; cbn [exec] in H.
     - destruct (actors s !! t) as [a|] eqn:Ha; [|done].
       destruct (inbox s !! t) as [[|m rest]|] eqn:Hib; try done.
       assert (Hp : not_unreq (EMsg m)).
@@ -129,10 +141,8 @@ Section boundw.
       pose proof (apply_step_phiW _ _ _ (EBuildDone r) _ _ _ _ _ Ha I Hws Hws' H) as Hphi. cbn [wevW PotentialW.wevW] in Hphi. lia.
     - destruct (root_running s && _) eqn:Hc; [|done].
       apply andb_true_iff in Hc as [Hrun _]. apply bool_decide_eq_true in Hrun.
-      destruct (rootq s) as [|o rest] eqn:Hq; [done|].
-      destruct w; [injection H as <-; unfold PhiW; cbn; rewrite ?Hq, ?Hrun; cbn; lia|].
-      destruct o as [[|d] [k r|k r|[] t act|k t]|t]; injection H as <-; unfold PhiW; cbn; rewrite ?Hq, ?Hrun; cbn; try lia.
-      rewrite size_dom. lia.
+      destruct (rootq s) as [|o rest] eqn:Hq; [done|]. injection H as <-.
+      by apply (root_consume_phiW w s [] o rest).
     - destruct (root_running s && negb w && root_sets_empty s) eqn:Hc; [|done].
       apply andb_true_iff in Hc as [Hc _]. apply andb_true_iff in Hc as [Hrun _]. apply bool_decide_eq_true in Hrun.
       destruct (set_empty (r_svc s)); injection H as <-; unfold PhiW; cbn; rewrite ?Hrun; cbn; rewrite ?size_dom; lia.
@@ -145,6 +155,20 @@ Section boundw.
       pose proof (ssum_union_list winvT (slot s) ts). unfold change_cost. lia.
     - destruct (ph s) eqn:Hph; try done. destruct (all_exited s); [|done]. injection H as <-.
       unfold PhiW. cbn. rewrite Hph. cbn. lia.
+    - destruct (actors s !! t) as [a|] eqn:Ha; [|done].
+      destruct (inbox s !! t) as [l|] eqn:Hib; [|done].
+      destruct (pick i l) as [[[pre m] rest]|] eqn:Hpk; [|done]. destruct (none_from _ _ pre); [|done].
+      apply pick_spec in Hpk. subst l.
+      assert (Hp : not_unreq (EMsg m)).
+      { destruct m as [k r|k r|k d act|k d]; cbn; try done. apply (Hnun (ATarget t) k r). cbn. exists (pre ++ MUnrequested k r :: rest).
+        split; [done|apply elem_of_mid]. }
+      pose proof (apply_step_phiW _ _ _ _ _ _ _ _ _ Ha Hp Hws Hws' H) as Hphi.
+      pose proof (msumk_insert_Some wlW (inbox s) t (pre ++ m :: rest) (pre ++ rest) Hib) as Hms.
+      cbn [wevW PotentialW.wevW] in Hphi. rewrite wlW_mid in Hms. lia.
+    - destruct (root_running s && _) eqn:Hc; [|done].
+      apply andb_true_iff in Hc as [Hrun _]. apply bool_decide_eq_true in Hrun.
+      destruct (pick i (rootq s)) as [[[pre o] rest]|] eqn:Hpk; [|done]. destruct (none_from _ _ pre); [|done].
+      injection H as <-. apply pick_spec in Hpk. by apply root_consume_phiW.
   Qed.
 
   (* steps other than signal deliveries and file-change notices; total cost of the file-change notices *)
